@@ -190,6 +190,44 @@ def sigchld_cases(ctx, cc, work):
             ctx.violation('C14|sigchld-ignored|%s|exit0-without-output' % tag, 'exit 0 but %s missing' % outs, files=files, script=script)
 
 
+def dep_option_cases(ctx, cc, work):
+    """Dependency options: -M / -MM stop after preprocessing (no object, no link, nothing but the rule on stdout or in -MF), -MD / -MMD
+    are side outputs of an ordinary compile or link. The set of files created must be exactly what the command shape implies."""
+    d = os.path.join(work, 'depopts')
+    os.makedirs(d)
+    open(os.path.join(d, 'a.c'), 'w').write('#include "h.h"\nint main(void) { return f(); }\n')
+    open(os.path.join(d, 'b.c'), 'w').write('#include "h.h"\nint f(void) { return 0; }\n')
+    open(os.path.join(d, 'h.h'), 'w').write('int f(void);\n')
+    core.sh([cc, '-c', '-o', 'whole.o', 'b.c'], cwd=d)
+    base = set(os.listdir(d))
+    cases = [('M', ['-M', 'a.c'], set()), ('M-two', ['-M', 'a.c', 'b.c'], set()), ('M-with-object', ['-M', 'a.c', 'whole.o'], set()),
+             ('M-MF', ['-M', '-MF', 'x.d', 'a.c'], {'x.d'}), ('c-MD', ['-c', '-MD', 'a.c'], {'a.o', 'a.d'}), ('c-MD-MF', ['-c', '-MD', '-MF', 'y.d', 'a.c'], {'a.o', 'y.d'}),
+             ('c-MMD', ['-c', '-MMD', 'b.c'], {'b.o', 'b.d'}), ('S-MD-o', ['-S', '-MD', '-o', 'o.s', 'a.c'], {'o.s', 'o.d'}),
+             ('link-MD', ['-MD', '-o', 'prog', 'a.c', 'b.c'], {'prog'}), ('link-MD-object', ['-MD', '-o', 'prog2', 'a.c', 'whole.o'], {'prog2'}), ('link-MMD-default', ['-MMD', 'a.c', 'b.c'], {'a.out'}),
+             ('E-MD', ['-E', '-MD', '-MF', 'z.d', '-o', 'e.i', 'a.c'], {'e.i', 'z.d'})]
+    for (tag, args, must) in cases:
+        for f in set(os.listdir(d)) - base:
+            os.unlink(os.path.join(d, f))
+        rc, so, se = core.sh([cc] + args, cwd=d, timeout=120)
+        new = set(os.listdir(d)) - base
+        ctx.evaluations += 1
+        ctx.count('dependency_option_runs')
+        ctx.saw(('dep-option', tag))
+        files = {'scenario.json': __import__('json').dumps({'args': args, 'rc': rc, 'new_files': sorted(new), 'required': sorted(must), 'stderr': se.decode('utf-8', 'replace')[-300:]})}
+        script = 'echo "run: chibicc %s in a directory with a.c b.c h.h whole.o and compare the files created"; exit 1' % ' '.join(args)
+        if rc != 0:
+            ctx.violation('C14|dep-option|%s|fails' % tag, '`chibicc %s` exits %s: %s' % (' '.join(args), rc, core.first_line(se.decode('utf-8', 'replace'))), files=files, script=script)
+            continue
+        missing = must - new
+        extra = {f for f in new - must if not f.endswith('.d')}       # where the .d of a link goes is not prescribed; anything else is
+        if missing:
+            ctx.violation('C14|dep-option|%s|output-missing' % tag, '`chibicc %s` exits 0 without creating %s (created: %s)' % (' '.join(args), sorted(missing), sorted(new)), files=files, script=script)
+        if extra:
+            ctx.violation('C14|dep-option|%s|extra-file' % tag, '`chibicc %s` also creates %s' % (' '.join(args), sorted(extra)), files=files, script=script)
+        if tag.startswith('M') and 'MF' not in tag and b'a.c' not in so and b'b.c' not in so:
+            ctx.violation('C14|dep-option|%s|no-rule-on-stdout' % tag, '`chibicc %s` prints no dependency rule' % ' '.join(args), files=files, script=script)
+
+
 def run(ctx):
     cc = ctx.build('plain')
     work = ctx.tmpdir('c14')
@@ -244,6 +282,7 @@ def run(ctx):
             sentinel = (sid % 2 == 0) and nf[0] not in ('odir-missing', 'o-under-file')
             scen.append((sid, cc, work, mode, combo, with_o, None, nf, sentinel)); meta[sid] = (sname, 'natural', nf, sentinel, steps, outs, final); sid += 1
     sigchld_cases(ctx, cc, work)
+    dep_option_cases(ctx, cc, work)
     results = core.pmap(run_scenario, scen, chunksize=4)
     for r in results:
         sname, kind, info, sentinel, steps, outs, final = meta[r['sid']]
